@@ -140,6 +140,12 @@ def run(ctx):
             rep.violation(dict(kind="correspondence", family="qeval-magnitude", top=t[0]),
                           "model and implementation disagree on %s: impl %s, model %s" % (s, got, m),
                           dict(tree=t, text=s, impl=got, model=m), found_input=False)
+    # --- the same conversions reached through arrays, comprehensions, variables (a quantity node evaluated once per
+    # element of a comprehension follows the element)
+    C.seam_check(rep, ctx["rundir"], "C04", texts=[texts[i] for i in range(0, len(texts), max(1, len(texts) // 50))][:50],
+                 templates=[("%s km to m", ["1", "2", "3"]), ("%s degC to K", ["-40", "0", "100", "1/2"]), ("%s degF to degC", ["-40", "32", "212"]),
+                            ("(%s km to m) m to km", ["1", "2", "7/3"]), ("(%s m) / 2", ["1", "3", "5/2"]), ("%s h + 30 min to min", ["1", "2", "1/2"]),
+                            ("%s fs to s", ["1", "2.5", "3"]), ("%s km | h to m | s", ["36", "72"]), ("%s eV to J", ["1", "2"]), ("2.5 fs * %s to fs", ["1", "2"])])
     # --- signed literals written without parentheses: the sign belongs to the magnitude (matters for offset units)
     raw = [("-40 degC to K", Fraction(23315, 100)), ("-40 degC to degF", None), ("-40 degF to degC", None), ("-5 km to m", Fraction(-5000)),
            ("+3 m to cm", Fraction(300)), ("-273 degC to K", Fraction(15, 100)), ("-(40 degC) to K", Fraction(-31315, 100)),
